@@ -404,7 +404,8 @@ Fixpoint pl_scan (n maxage : Z) (sc : list (list pop)) (l : list ev) (m : pmon) 
         (match mfresh m with
          | _ :: _ => true
          | [] => match nth_op sc (ea e) (eop e) with
-                 | Some PGet => (mlive m =? n)%Z && match midle m, mput m with [], [] => true | _, _ => false end
+                 | Some PGet | Some PGetX =>
+                   (mlive m =? n)%Z && match midle m, mput m with [], [] => true | _, _ => false end
                  | _ => false
                  end
          end, m)
@@ -421,7 +422,11 @@ Fixpoint pl_scan (n maxage : Z) (sc : list (list pop)) (l : list ev) (m : pmon) 
         end
       else if (k =? 3)%Z then
         match nth_op sc (ea e) (eop e) with
-        | Some PGet =>
+        | Some PGet | Some PGetX =>
+          (* a Get whose create() panicked (result -2, PGetX only): no resource came into being and
+             nothing may have been counted - judged by the Gets that follow (blocked only at the limit) *)
+          if (x =? -2)%Z then (match nth_op sc (ea e) (eop e) with Some PGetX => true | _ => false end, m) else
+
           let notheld := negb (existsb (fun p => Z.eqb (fst p) x) (mheld m)) && negb (zmem x (mdead m)) in
           let src :=
             match find (fun p => Z.eqb (fst p) x) (midle m) with
